@@ -122,6 +122,15 @@ Theorem C10_fault_free_round_broadcasts : forall (qc : cfg) (h ld : N),
 Proof. exact every_operator_broadcasts_round_broadcasts. Qed.
 Print Assumptions C10_fault_free_round_broadcasts.
 
+(* the decided message: the aggregate of the first quorum of commits, signers sorted - what UponCommit builds and the
+   controller broadcasts at every operator of the fault-free round *)
+Theorem C10_decided_msg_is_the_aggregate : forall c h ld,
+  v_sort_agg (var c) = true -> firstn (N.to_nat (quorum c)) (committee c) <> [] ->
+  aggregate_commits c (map (fmsg h T_COMMIT (hash (start_value ld))) (firstn (N.to_nat (quorum c)) (committee c)))
+                    (start_value ld) = Some (decided_msg c h ld).
+Proof. exact decided_msg_is_the_aggregate. Qed.
+Print Assumptions C10_decided_msg_is_the_aggregate.
+
 Theorem C10_recovery_round_broadcasts : forall c h ld1 ld2 live i m,
   In m (round2_broadcasts c h ld2 live i) -> In m (recover_bcasts c h ld1 ld2 live i).
 Proof. exact round2_in_recover_bcasts. Qed.
@@ -162,6 +171,16 @@ Proof.
            A3 A4 A5 A6 A7 A8 A9 A10 A11 A12 A13 A14 A15 ld Hld).
 Qed.
 
+Theorem C10_fault_free_round_with_decided_is_accepted : forall ld,
+  peer_ok -> NoDup (committee qc) -> V.s_quorum sh = quorum qc -> 2 <= quorum qc ->
+  quorum qc <= N.of_nat (length (committee qc)) -> proposer qc h FIRST_ROUND = Some ld ->
+  all_accepted VC.firstRound (all_broadcasts_and_decided qc h ld).
+Proof.
+  intros ld (A1 & A2 & A3 & A4 & A5 & A6 & A7 & A8 & A9 & A10 & A11 & A12 & A13 & A14 & A15) Hnd Hquo Hq2 Hqn Hld.
+  exact (fault_free_round_with_decided_is_accepted qc h A1 A2 vc sh vid role fdlen p2p rawlen dlen pkprefix
+           A3 A4 A5 A6 A7 A8 A9 A10 A11 A12 A13 A14 A15 ld Hnd Hquo Hq2 Hqn Hld).
+Qed.
+
 Theorem C10_recovery_round_is_accepted : forall ld2 live,
   peer_ok -> (forall y, In y live -> In y (committee qc)) -> proposer qc h R2 = Some ld2 ->
   all_accepted 2 (all_broadcasts2 qc h ld2 live).
@@ -182,6 +201,7 @@ Qed.
 
 End Gate.
 Print Assumptions C10_fault_free_round_is_accepted.
+Print Assumptions C10_fault_free_round_with_decided_is_accepted.
 Print Assumptions C10_recovery_round_is_accepted.
 Print Assumptions C10_prepared_recovery_round_is_accepted.
 
@@ -225,6 +245,13 @@ Example C10_fault_free_round_example :
   proposer (sync_cfg 4) 1000 FIRST_ROUND = Some 1 /\
   VR.true_slot c10_vcfg (fst c10_now) = 1000%Z /\ length (all_broadcasts (sync_cfg 4) 1000 1) = 9%nat /\
   snd (V.run c10_vcfg [] (c10_at_now (rev (all_broadcasts (sync_cfg 4) 1000 1)))) = repeat V.Accept 9.
+Proof. vm_compute. repeat split; reflexivity. Qed.
+
+(* (a') the same with the decided message, which arrives FIRST *)
+Example C10_fault_free_round_with_decided_example :
+  v_sort_agg (var (sync_cfg 4)) = true /\ length (all_broadcasts_and_decided (sync_cfg 4) 1000 1) = 10%nat /\
+  V.c_signers (gate_msg 8 true (decided_msg (sync_cfg 4) 1000 1)) = [1; 2; 3] /\
+  snd (V.run c10_vcfg [] (c10_at_now (rev (all_broadcasts_and_decided (sync_cfg 4) 1000 1)))) = repeat V.Accept 10.
 Proof. vm_compute. repeat split; reflexivity. Qed.
 
 Example C10_recovery_round_example :
